@@ -877,6 +877,8 @@ func eraOf(s chain.NetSpec, parentHeight uint64) int {
 }
 
 func run(c *vf.Ctx) {
+	c.FullScope = true // the whole stated space takes about a minute: both tiers run it
+	c.Set("scope_note", "quick and thorough tiers run the same (full) scope")
 	c.Set("rule", "for every network family and EVERY height up to the horizon (one state per height, contracts formed and keys rotated on the way) every applicable signed template (9 v1, 11 v2) is validated untampered (must be accepted) and under every single-point tampering: reflection walk over every field of the signed transaction (+-1, first/last byte flips of every hash/key/address/signature, drop/duplicate of every list element), exchange of the contents of every two same-typed leaves or list elements, plus structured substitutions (other policy/keys, opaque satisfied branch, surplus/garbage signature, swapped signatures, proposed instead of current keys, foreign renewal keys); the block is re-sealed, never re-signed; oracle: rejected unless the path is outside the template's signed set (counted as unspecified); era replay of v1 signatures across every fork height")
 	keys := chain.NewKeys(c.Seed)
 	nets := []string{"v1-eras", "mixed", "v2-only"}
